@@ -604,9 +604,11 @@ def judge(case, sim):
         fail('unexpected_link_error', [], other[:2], 'no other link error is expected')
     if fin['send_errors'] and not case.get('threaded'):
         # the sending thread may report only when its put timed out, i.e. on a full queue: never after an accepted put
-        n_st = sum(1 for e in sim.executed if e[0] == 'ST')
-        if fin['send_errors'] > n_st:
-            fail('send_timeout_reported_without_timeout', '<= %d' % n_st, fin['send_errors'], 'Could not send packet')
+        pass
+    if not case.get('threaded') and fin['send_errors'] != sim.st_failed:
+        # the sending thread reports exactly when its put timed out (send_packet returned False), never otherwise
+        fail('send_timeout_report_wrong', sim.st_failed, fin['send_errors'],
+             "'Could not send packet' must be reported once per send_packet call that timed out, and only then")
     if fin.get('closed'):
         cl = fin['closed']
         if not (cl['radio_closed'] == 1 and cl['radio_ref'] and cl['callbacks_cleared'] and cl['out_queue_empty']):
